@@ -494,7 +494,11 @@ class VerifyRecorder:
     def install(self, *modules: Any) -> "VerifyRecorder":
         rec = self
         for mod in modules:
-            orig = mod.KSKM_PublicKey
+            orig = getattr(mod, "KSKM_PublicKey", None)
+            if orig is None:
+                # the module no longer refers to the verifier at all (e.g. a software check was removed): nothing to record there;
+                # the model will ask for an answer nobody recorded, and the property oracle judges what was written
+                continue
 
             class _Proxy:
                 _orig = orig
